@@ -192,3 +192,77 @@ Proof.
   - intros x Hx. apply in_mem_keys. apply M2. now rewrite M1 in Hx. apply Hr. now rewrite M1 in Hx.
   - intros x Hx. apply in_mem_keys. rewrite M1. now apply M2. apply Hr. now apply M2.
 Qed.
+
+(* associativity *)
+Lemma members2 : forall x y, members [x; y] = flatten x ++ flatten y.
+Proof. intros. unfold members. simpl. now rewrite app_nil_r. Qed.
+
+Lemma unite_assoc : forall n a b c,
+  flat a = true -> flat b = true -> flat c = true ->
+  fits n (VAnyUnreachable :: flatten a ++ flatten b ++ flatten c) = true ->
+  equiv_onb (E_f n) (VAnyUnreachable :: flatten a ++ flatten b ++ flatten c) = true ->
+  veq_f (S n) (unite_f n [unite_f n [a; b]; c]) (unite_f n [a; unite_f n [b; c]]) = true.
+Proof.
+  intros n a b c Fa Fb Fc Hfit Heq.
+  destruct (equiv_onb_spec _ _ Heq) as [Hr [Hs Ht]].
+  set (Sup := VAnyUnreachable :: flatten a ++ flatten b ++ flatten c) in *.
+  assert (Ia : forall x, In x (flatten a) -> In x Sup) by (intros x Hx; right; apply in_or_app; auto).
+  assert (Ib : forall x, In x (flatten b) -> In x Sup).
+  { intros x Hx. right. apply in_or_app. right. apply in_or_app. auto. }
+  assert (Ic : forall x, In x (flatten c) -> In x Sup).
+  { intros x Hx. right. apply in_or_app. right. apply in_or_app. auto. }
+  assert (Na := flat_spec a Fa). assert (Nb := flat_spec b Fb). assert (Nc := flat_spec c Fc).
+  assert (Hunr := E_f_unreachable n).
+  (* the two inner unions *)
+  assert (Sab : forall y, In y (members [a; b]) -> In y Sup).
+  { intros y Hy. rewrite members2 in Hy. apply in_app_or in Hy. destruct Hy; auto. }
+  assert (Sbc : forall y, In y (members [b; c]) -> In y Sup).
+  { intros y Hy. rewrite members2 in Hy. apply in_app_or in Hy. destruct Hy; auto. }
+  assert (Nab : all_nonunion (members [a; b])).
+  { intros y Hy. rewrite members2 in Hy. apply in_app_or in Hy. destruct Hy; auto. }
+  assert (Nbc : all_nonunion (members [b; c])).
+  { intros y Hy. rewrite members2 in Hy. apply in_app_or in Hy. destruct Hy; auto. }
+  set (u := unite_f n [a; b]). set (u' := unite_f n [b; c]).
+  assert (Su : forall x, In x (flatten u) -> In x Sup).
+  { intros x Hx. destruct (flatten_unite_in_S (E_f n) Sup [a; b] x Sab Nab Hx) as [->|H]; [left; reflexivity|exact H]. }
+  assert (Su' : forall x, In x (flatten u') -> In x Sup).
+  { intros x Hx. destruct (flatten_unite_in_S (E_f n) Sup [b; c] x Sbc Nbc Hx) as [->|H]; [left; reflexivity|exact H]. }
+  assert (Nu : all_nonunion (flatten u)) by (apply flatten_unite_nonunion; exact Nab).
+  assert (Nu' : all_nonunion (flatten u')) by (apply flatten_unite_nonunion; exact Nbc).
+  assert (Cu : forall x, In x (members [a; b]) -> is_unreachable x = false -> mem_keys (E_f n) (flatten u) x = true).
+  { intros x Hx Hu. apply (flatten_unite_cover (E_f n) Sup Hunr Hr); auto. }
+  assert (Cu' : forall x, In x (members [b; c]) -> is_unreachable x = false -> mem_keys (E_f n) (flatten u') x = true).
+  { intros x Hx Hu. apply (flatten_unite_cover (E_f n) Sup Hunr Hr); auto. }
+  apply (result_rel_veq n Sup); [apply fits_spec; auto|].
+  unfold unite_f at 1 2. apply unite_with_rel_r; auto; fold u; fold u'; rewrite ?members2.
+  - intros x Hx. apply in_app_or in Hx. destruct Hx; auto.
+  - intros x Hx. apply in_app_or in Hx. destruct Hx; auto.
+  - intros x Hx. apply in_app_or in Hx. destruct Hx; auto.
+  - intros x Hx. apply in_app_or in Hx. destruct Hx; auto.
+  - (* left covers right *)
+    intros x Hx Hu. rewrite mem_keys_app. apply in_app_or in Hx. destruct Hx as [Hx|Hx].
+    + assert (Hm := flatten_unite_sub (E_f n) [a; b] x Nab Hx Hu). rewrite members2 in Hm.
+      apply in_app_or in Hm. destruct Hm as [Hm|Hm].
+      * rewrite (in_mem_keys _ _ _ Hm (Hr x (Ia x Hm))). reflexivity.
+      * rewrite (Cu' x) by (rewrite ?members2; auto; apply in_or_app; auto). apply orb_true_r.
+    + rewrite (Cu' x) by (rewrite ?members2; auto; apply in_or_app; auto). apply orb_true_r.
+  - (* right covers left *)
+    intros x Hx Hu. rewrite mem_keys_app. apply in_app_or in Hx. destruct Hx as [Hx|Hx].
+    + rewrite (Cu x) by (rewrite ?members2; auto; apply in_or_app; auto). reflexivity.
+    + assert (Hm := flatten_unite_sub (E_f n) [b; c] x Nbc Hx Hu). rewrite members2 in Hm.
+      apply in_app_or in Hm. destruct Hm as [Hm|Hm].
+      * rewrite (Cu x) by (rewrite ?members2; auto; apply in_or_app; auto). reflexivity.
+      * rewrite (in_mem_keys _ _ _ Hm (Hr x (Ic x Hm))). apply orb_true_r.
+  - (* the all-unreachable case: both sides are empty together *)
+    intros A1 A2.
+    assert (E1 : flatten u = [] <-> members [a; b] = []).
+    { apply (flatten_unite_nil (E_f n) Sup Hunr Hr); auto. intros x Hx. apply A1. apply in_or_app; auto. }
+    assert (E2 : flatten u' = [] <-> members [b; c] = []).
+    { apply (flatten_unite_nil (E_f n) Sup Hunr Hr); auto. intros x Hx. apply A2. apply in_or_app; auto. }
+    rewrite members2 in E1, E2.
+    split; intros H; apply app_eq_nil in H; destruct H as [H1 H2].
+    + apply E1 in H1. apply app_eq_nil in H1. destruct H1 as [Ha Hb]. rewrite Ha. simpl.
+      apply E2. rewrite Hb, H2. reflexivity.
+    + apply E2 in H2. apply app_eq_nil in H2. destruct H2 as [Hb Hc]. rewrite Hc, app_nil_r.
+      apply E1. rewrite H1, Hb. reflexivity.
+Qed.
